@@ -284,3 +284,22 @@ Proof. vm_compute. reflexivity. Qed.
 Theorem unordered_can_deadlock :
   exists progs sched, deadlocked (run (init progs) sched) = true.
 Proof. exists abba_progs, [0; 1]. vm_compute. reflexivity. Qed.
+
+(* ---------- the protocol gluon actually follows on `Thread.context` (finding C14/F2) ----------
+   class 1 = the root thread's context, class 2 = a child thread's context.
+   * a collecting root: `Thread::collect` runs with its own context locked and
+     `Roots::mark_child_roots` (thread.rs:395-433) then locks every descendant's context: 1, then 2;
+   * a child that is handed a value rooted in the root thread (`RootedValue::vm_push`,
+     api/mod.rs:1577, or `deep_clone_value`) runs with its own context locked and
+     `can_share_values_with` (thread.rs:1337) locks the OTHER thread's context to read its
+     generation: 2, then 1.
+   The second program is not well ordered, and the pair deadlocks under the schedule [0; 1]
+   (observed on the real implementation by the C14 harness: gdb shows exactly these two frames). *)
+Definition gluon_collector : list instr := [Acquire 1; Acquire 2; Release 2; Release 1].
+Definition gluon_value_push : list instr := [Acquire 2; Acquire 1; Release 1; Release 2].
+
+Theorem context_lock_order_refuted :
+  well_ordered [] gluon_collector = true /\
+  well_ordered [] gluon_value_push = false /\
+  exists sched, deadlocked (run (init [gluon_collector; gluon_value_push]) sched) = true.
+Proof. split; [reflexivity|split; [reflexivity|]]. exists [0; 1]. vm_compute. reflexivity. Qed.
